@@ -52,7 +52,7 @@ def run(chk, repo, tier):
     chk.rule("C06.R1", "v ∈ {27, 28}; s ≤ (N−1)/2 on every path; r is the x-coordinate of k·G", 2)
     chk.rule("C06.R2", "s·k ≡ z + r·d (mod N), z = OS2IP(hash), d = OS2IP(key)", 2)
     chk.rule("C06.R3", "nonce = RFC 6979 §3.2 HMAC-SHA256 chain over key‖hash (raw-bytes convention), big-endian", 3)
-    chk.rule("C06.R4", "sign∘recover = d·G in the formal group on every path (v flip and s flip agree)", 2)
+    chk.rule("C06.R4", "sign∘recover = d·G in the formal group on every path (v flip and s flip agree); recover is as C19 requires", 2 + 8)
     chk.not_decided += ["1 ≤ r < N (r is returned unreduced), s ≠ 0, k ∈ [1, N−1]: 2^-128 value events, not visible in the code's shape",
                         "RFC 6979's reduction of h1 modulo q and its retry loop are not part of the code (raw-bytes convention)"]
     chk.assumptions += ["multiply/inv are the group operation / modular inverse (C18, C08.R4)",
@@ -149,6 +149,19 @@ def run(chk, repo, tier):
         q2 = cancel_inverses(cancel_inverses(invr * (sp * Poly.const(-sigma, N) * Poly.var("k", N) - Poly.var("z", N)), ip), ip)
         chk.ob("C06.R4", f.qualname, f"path {pl}: recover(sign) = d·G, other v ≠ d·G", okq and not (q2 - Poly.var("d", N)).is_zero(),
                f"recovered scalar {q!r} (v flip {flip_v}, s flip {flip_s}); with the other v: {q2!r}", f.where)
+    # ---- R4 (recover side): the obligations of C19 that the round trip relies on, re-stated here
+    from . import C19
+    from ..report import SubCheck
+    sub = SubCheck()
+    err = None
+    try:
+        C19.run(sub, repo, tier)
+    except AnalysisError as e:
+        err = e
+    for rule, construct, key, ok, detail, where in sub.obs:
+        chk.ob("C06.R4", construct, f"recover side [{rule}] {key}", ok, detail, where)
+    if err is not None and all(o[3] for o in sub.obs):
+        raise err
     # ---- R3 nonce term
     b2i = check_bytes_to_int(chk, "C06.R3", repo, w)
     it = Interp(w, summaries={b2i.qualname: s_b2i})
